@@ -2483,7 +2483,7 @@ class Signature(object):
                 str(secp256k1_Gx),
                 str(secp256k1_Gy)
             )
-            if int(s) > secp256k1_n / 2:
+            if int(s) > secp256k1_n // 2:
                 s = secp256k1_n - int(s)
             return Signature(r, s, txid, secret, public_key=pub_key, k=k, hash_type=hash_type)
         else:
@@ -2493,7 +2493,7 @@ class Signature(object):
             signature = convert_der_sig(sig_der)
             r = int(signature[:64], 16)
             s = int(signature[64:], 16)
-            if s > secp256k1_n / 2:
+            if s > secp256k1_n // 2:
                 s = secp256k1_n - s
             return Signature(r, s, txid, secret, public_key=pub_key, k=k, hash_type=hash_type)
 
